@@ -115,7 +115,7 @@ func init() {
 		"everify_start": 1, "everify_end": 1, "login_get": 1, "app_session_put": 1, "recover_end_get": 1, "op_start_confirm": 1,
 		"totp_setup_get": 1, "sms_setup_get": 1,
 	}
-	loginTemplates := []string{"login_ok", "remember_cycle", "recover_flow", "register_flow", "oauth_flow", "otp_flow", "fail_burst"}
+	loginTemplates := []string{"login_ok", "remember_cycle", "recover_flow", "register_flow", "oauth_flow", "otp_flow", "fail_burst", "forged_cookie"}
 	register(&Profile{
 		ID: "C01",
 		Config: func(r *Rng, tier string) Config {
@@ -132,7 +132,7 @@ func init() {
 		},
 		Gen: func(r *Rng, tier string) *genProfile {
 			return &genProfile{MaxSteps: steps(tier, 40, 100), Default: 1, FollowUp: 65, Template: 30, Templates: loginTemplates,
-				Weights: loginWeights, BadSecret: 45, ThreshGaps: 12, SmallGaps: 20, Redir: 10, FaultRate: 0}
+				Weights: loginWeights, BadSecret: 45, ThreshGaps: 12, SmallGaps: 20, Redir: 10, FaultRate: []int{0, 0, 80}[r.Intn(3)]}
 		},
 		Oracle: newC01Oracle,
 		Nontrivial: func(s *Stats) bool {
@@ -225,14 +225,14 @@ func init() {
 		},
 		Gen: func(r *Rng, tier string) *genProfile {
 			return &genProfile{MaxSteps: steps(tier, 40, 100), Default: 0, FollowUp: 60, Template: 40,
-				Templates: []string{"remember_cycle", "remember_cycle", "oauth_remember", "recover_flow", "login_ok"},
+				Templates: []string{"remember_cycle", "remember_cycle", "oauth_remember", "oauth_stale_params", "forged_cookie", "remember_then_reset", "recover_flow", "login_ok"},
 				Weights: withW(loginWeights, map[string]int{"probe": 14, "drop_session": 10, "copy_cookie": 5, "stale_cookie": 7, "set_cookie": 3, "logout": 6,
 					"op_update_password": 3, "register": 1, "confirm": 1}),
-				BadSecret: 30, ThreshGaps: 5, SmallGaps: 20}
+				BadSecret: 30, ThreshGaps: 5, SmallGaps: 20, FaultRate: []int{0, 0, 60}[r.Intn(3)]}
 		},
 		Oracle:        newC07Oracle,
 		Nontrivial:    anyReach("c07_cookie_"),
-		RequiredReach: []string{"c07_cookie_authenticated", "c07_cookie_issued", "c07_dead_cookie_refused_spent", "c07_dead_cookie_refused_unknown", "c07_dead_cookie_refused_revoked", "c07_halfauth_cleared"},
+		RequiredReach: []string{"c07_cookie_authenticated", "c07_cookie_issued", "c07_dead_cookie_refused_spent", "c07_dead_cookie_refused_unknown", "c07_dead_cookie_refused_revoked", "c07_halfauth_cleared", "c07_plain_start_after_rm_start"},
 	})
 	register(&Profile{
 		ID: "C06",
@@ -433,7 +433,7 @@ func init() {
 		Oracle:     newC08Oracle,
 		Nontrivial: anyReach("c08_admitted"),
 		RequiredReach: []string{"c08_admitted", "c08_admitted_reqs1", "c08_admitted_reqs2", "c08_admitted_reqs3", "c08_refused_mode0", "c08_refused_mode1", "c08_refused_mode2",
-			"c08_storage_error_500", "c08_redirect_target_ok_plain", "c08_redirect_target_ok_with_query", "c08_redirect_target_ok_path_special"},
+			"c08_storage_error_500", "c08_cookie_authenticated_request", "c08_redirect_target_ok_plain", "c08_redirect_target_ok_with_query", "c08_redirect_target_ok_path_special"},
 	})
 	register(&Profile{
 		ID: "C09",
@@ -457,7 +457,7 @@ func init() {
 		},
 		Gen: func(r *Rng, tier string) *genProfile {
 			return &genProfile{MaxSteps: steps(tier, 40, 100), Default: 0, FollowUp: 60, Template: 35,
-				Templates: []string{"login_ok", "idle_probe", "idle_probe", "oauth_flow", "register_flow", "otp_flow", "recover_flow"},
+				Templates: []string{"login_ok", "idle_probe", "idle_probe", "relogin_after_idle", "oauth_flow", "register_flow", "otp_flow", "recover_flow"},
 				Weights: withW(loginWeights, map[string]int{"probe": 30, "advance": 10, "app_session_put": 8, "logout": 3, "oauth2_start": 4, "oauth2_callback": 4,
 					"register": 4, "drop_session": 1, "copy_cookie": 0, "stale_cookie": 0, "set_cookie": 0, "totp_setup": 3, "sms_setup": 3, "everify_start": 0}),
 				BadSecret: 20, ThreshGaps: 45, SmallGaps: 25,
@@ -465,7 +465,7 @@ func init() {
 		},
 		Oracle:        newC09Oracle,
 		Nontrivial:    anyReach("c09_expired_request"),
-		RequiredReach: []string{"c09_expired_request", "c09_live_request", "c09_login_login", "c09_login_oauth2_callback", "c09_login_register", "c09_login_totp_validate"},
+		RequiredReach: []string{"c09_expired_request", "c09_live_request", "c09_login_login", "c09_login_oauth2_callback", "c09_login_register", "c09_login_totp_validate", "c09_relogin_over_existing_session"},
 	})
 	register(&Profile{
 		ID: "C10",
